@@ -2,8 +2,9 @@
    Padding(width='clip') and Overlay(width='pack').  Their fixed child must lie in the fragments of
    WidgetDimsTree / WidgetDimsFixedTree (it may not itself contain a clip Padding or a pack Overlay).
    This induction also covers widgets without rows (Pile([]) and what wraps it): [min_rows w] is the number of
-   rows the contract guarantees, 0 or 1.  Columns always has a row (ba7db6e); the top widget of an Overlay
-   must have one (a 0-row top widget with height='pack' is a genuine failure of the real code). *)
+   rows the contract guarantees, 0 or 1.  Columns always has a row (ba7db6e); an Overlay whose height is
+   packed from a top widget without rows shows its bottom widget alone (f9cf74e) and has the rows of its
+   margins only. *)
 From Coq Require Import ZArith List Bool Lia ZifyBool.
 Import ListNotations.
 From Urwid Require Import WidgetDims WidgetDimsProofs WidgetDimsFrame WidgetDimsOverlay WidgetDimsColsArith
@@ -25,7 +26,7 @@ Fixpoint min_rows (w : widget) : Z :=
   | WPile items _ => match items with PNil => 0 | _ => min_rows_p items end
   | WColumns _ _ _ _ => 1
   | WFrame _ _ _ _ => 1
-  | WOverlay _ _ _ => 1
+  | WOverlay t _ p => match ov_wt p with WPack => 1 | _ => overlay_min_rows (min_rows t) p end
   end
 with min_rows_p (l : pitems) : Z :=
   match l with PNil => 1 | PCons w _ _ r => Z.min (min_rows w) (min_rows_p r) end.
@@ -46,7 +47,7 @@ Fixpoint proved_fragment2 (w : widget) : bool :=
       && (match ov_wt p with
           | WPack => fixed_child_ok t
           | WGiven _ | WRelative _ =>
-              proved_fragment2 t && (min_rows t =? 1)
+              proved_fragment2 t
               && (match ov_ht p with
                   | HRelative pct => (pct <=? 100) && (match ov_minh p with Some m => 0 <=? m | None => true end)
                   | _ => true
@@ -104,6 +105,7 @@ Proof.
   assert (H : forall w, 0 <= min_rows w <= 1).
   { apply (widget_mut (fun w => 0 <= min_rows w <= 1) (fun l => 0 <= min_rows_p l <= 1)
              (fun _ => True) (fun _ => True)); cbn [min_rows min_rows_p]; intros; auto; try lia;
+      unfold overlay_min_rows;
       repeat match goal with |- context [match ?x with _ => _ end] => destruct x end;
       cbn [min_rows_p] in *; lia. }
   split; [exact H|]. induction l; cbn [min_rows_p]; [lia|]. specialize (H w). lia.
@@ -161,18 +163,16 @@ Proof.
     apply andb_prop in Hf. destruct Hf as [Hfb Hft].
     assert (GB : exists nb, GoodN nb (denote b)) by (exists (min_rows b); auto).
     destruct (ov_wt p) as [n| | |pct] eqn:EW; try discriminate.
-    + apply andb_prop in Hft. destruct Hft as [P1 P2]. apply andb_prop in P1. destruct P1 as [P1 P3].
+    + apply andb_prop in Hft. destruct Hft as [P1 P2]. pose proof (min_rows_range t).
       apply overlay_good; auto.
-      * replace 1 with (min_rows t) by lia. auto.
-      * eapply overlay_given_of_bools; eauto; rewrite EW; reflexivity.
+      eapply overlay_given_of_bools; eauto; rewrite EW; reflexivity.
     + (* width = 'pack' *)
       unfold fixed_child_ok in Hft. destruct L1 as [L1a L1b].
       apply (overlay_pack_good (denote t) (denote b) p); auto; try lia.
       apply fixed_contract_by_induction; auto; lia.
-    + apply andb_prop in Hft. destruct Hft as [P1 P2]. apply andb_prop in P1. destruct P1 as [P1 P3].
+    + apply andb_prop in Hft. destruct Hft as [P1 P2]. pose proof (min_rows_range t).
       apply overlay_good; auto.
-      * replace 1 with (min_rows t) by lia. auto.
-      * eapply overlay_given_of_bools; eauto; rewrite EW; reflexivity.
+      eapply overlay_given_of_bools; eauto; rewrite EW; reflexivity.
   - (* PNil *) intros ps _ _ _. split; constructor.
   - (* PCons *) intros w IHw k n r IHr ps Hw Hf Hl.
     cbn [wf_p proved_fragment2_p leaves_ok2_p denote_p min_rows_p] in *.
